@@ -873,6 +873,19 @@ def guarded_area_checks(ctx):
                     ctx.oracle_fail(case, {'what': 'guarded intersection area differs from the sum of the pairwise '
                                                    'polygon intersections of the members', 'got': float(got),
                                            'want': want, 'members_a': len(members(a)), 'members_b': len(members(b))})
+                    continue
+                # the unguarded twin (used by the deprecated public max_overlap_pair / max_overlap_image) has the same
+                # documented semantics; it may refuse a pair (spherical_geometry), it must not report another area
+                try:
+                    plain = float(a.intersection_area(b))
+                except Exception:   # noqa
+                    ctx.branch('guarded:plain-refused')
+                    continue
+                if abs(plain - want) > 2e-3 * max(abs(want), abs(plain)) + 5e-15 + 1e-4 * min(abs(x.polygon.area()) for x in (a, b)):
+                    ctx.oracle_fail(dict(case, op='plain-area'),
+                                    {'what': 'intersection_area differs from the sum of the pairwise polygon intersections '
+                                             'of the members (and from _guarded_intersection_area)', 'got': plain,
+                                     'want': want, 'members_a': len(members(a)), 'members_b': len(members(b))})
 
 
 def run(ctx):
